@@ -96,7 +96,7 @@ def run(ctx):
     try:
         rules_C12.keepalive_table(c2)
     except CheckerError as e:
-        ctx.ob("C09.7", "parser|upgrade-ends-connection", "the parser's keep-alive decision could be extracted", False, "client.rs", str(e))
+        raise CheckerError("C09.7 (the parser's keep-alive decision could not be extracted): %s" % e)
     n7 = 0
     for o in c2.obs:
         if o.rule == "C12.1" and o.key.split("|")[-1] in ("atoms", "haystack", "table"):
